@@ -363,11 +363,16 @@ fn result_json(src: &String, buffer: &TokenizedBuffer, errors: &[ErrorInfo], out
                     match buffer.get_string_literal(s, e) {
                         Ok(t) => {
                             m.insert("pt".into(), chars_json(t));
+                            m.insert(
+                                "ptc".into(),
+                                Value::Array(t.chars().map(|c| json!(c as u32)).collect()),
+                            );
                             m.insert("ptok".into(), json!(true));
                         }
                         Err(_) => {
                             acc_fail += 1;
                             m.insert("pt".into(), json!([]));
+                            m.insert("ptc".into(), json!([]));
                             m.insert("ptok".into(), json!(false));
                         }
                     }
@@ -387,6 +392,7 @@ fn result_json(src: &String, buffer: &TokenizedBuffer, errors: &[ErrorInfo], out
         }
         if !m.contains_key("pt") {
             m.insert("pt".into(), json!([]));
+            m.insert("ptc".into(), json!([]));
             m.insert("ptok".into(), json!(true));
         }
         toks.push(Value::Object(m));
